@@ -12,3 +12,4 @@ open IrVerif.Device
 #print axioms C19_name_frame
 #print axioms C19_names_current
 #print axioms C19_roundtrip_legacy
+#print axioms C19_inline_remap
